@@ -478,10 +478,20 @@ func TestJWTFinalizerCaching(t *testing.T) {
 			pc["ttl"] = proto
 		}
 
+		// custom claims may name the claims which say how long the token is valid (they must not have any effect on these,
+		// C16; what is cached is in any case bounded by what the token itself says)
+		customClaims := rapid.SampledFrom([]string{"", "", `{"role":"user"}`, fmt.Sprintf(`{"exp": %d}`, time.Now().Unix()+2), `{"exp": 1}`,
+			fmt.Sprintf(`{"exp": %d, "nbf": %d}`, time.Now().Unix()+3, time.Now().Unix()-10)}).Draw(t, "customClaims")
+		if customClaims != "" {
+			pc["claims"] = customClaims
+		}
+
 		ref := config.MechanismConfig{"finalizer": "jwt"}
 		if over != "" {
 			ref["config"] = map[string]any{"ttl": over}
 		}
+
+		var firstExp int64
 
 		x, err := build([]config.Mechanism{{ID: "anon", Type: "anonymous"}}, []config.Mechanism{{ID: "jwt", Type: "jwt", Config: pc}},
 			[]config.MechanismConfig{{"authenticator": "anon"}, ref})
@@ -499,7 +509,11 @@ func TestJWTFinalizerCaching(t *testing.T) {
 			}
 
 			if exp <= now {
-				t.Fatalf("jwt finalizer handed out an already expired token (exp=%d now=%d, request %d, ttl=%q/%q)", exp, now, i+1, proto, over)
+				t.Fatalf("jwt finalizer handed out an already expired token (exp=%d now=%d, request %d, ttl=%q/%q claims=%s)", exp, now, i+1, proto, over, customClaims)
+			}
+
+			if i == 0 {
+				firstExp = exp
 			}
 		}
 
@@ -525,7 +539,14 @@ func TestJWTFinalizerCaching(t *testing.T) {
 			if s.TTL <= 0 || s.TTL > d+tolerance {
 				t.Fatalf("jwt finalizer cached a token valid for %v with a TTL of %v", d, s.TTL)
 			}
+
+			if end := s.At.Add(s.TTL); end.After(time.Unix(firstExp, 0).Add(tolerance)) {
+				t.Fatalf("jwt finalizer cached a token until %s, which says about itself that it expires at %s (ttl=%q/%q claims=%s)",
+					end.Format(time.RFC3339), time.Unix(firstExp, 0).Format(time.RFC3339), proto, over, customClaims)
+			}
 		}
+
+		vkit.S.LabelIf(strings.Contains(customClaims, "exp"), "jwt-finalizer:custom_claims_name_exp")
 	})
 }
 
